@@ -170,12 +170,14 @@ pub trait Row: Sized {
     spec fn rid(&self) -> Seq<char>;
     spec fn field(&self, key: Seq<char>) -> JsonV;
 }
+#[verifier::opaque]
 pub open spec fn cond_holds<T: Row>(c: Cond, row: T) -> bool {
     match c.r#type {
         CondType::And => forall|i: int| 0 <= i < c.conds@.len() ==> expr_holds(#[trigger] c.conds@[i].op, row.field(c.conds@[i].key@), c.conds@[i].value@),
         CondType::Or => exists|i: int| 0 <= i < c.conds@.len() && expr_holds(#[trigger] c.conds@[i].op, row.field(c.conds@[i].key@), c.conds@[i].value@),
     }
 }
+#[verifier::opaque]
 pub open spec fn query_holds<T: Row>(q: Query, row: T) -> bool {
     forall|i: int| 0 <= i < q.conds@.len() ==> cond_holds(#[trigger] q.conds@[i], row)
 }
@@ -185,20 +187,50 @@ pub type Table<T> = Map<Seq<char>, T>;
 pub open spec fn table_wf<T: Row>(t: Table<T>) -> bool {
     forall|id: Seq<char>| t.dom().contains(id) ==> (#[trigger] t[id]).rid() == id
 }
-pub open spec fn matching<T: Row>(t: Table<T>, q: Query) -> Set<Seq<char>> {
-    t.dom().filter(|id: Seq<char>| query_holds(q, t[id]))
-}
 
 //@@ extract file=acts/src/store/mod.rs item="struct PageData"
 //@@ end
 
-// result of `query`: rows are distinct rows of the table that satisfy the filter; all of them when they fit the limit
+// rows selected by a predicate p out of table t
+pub open spec fn sel_sound<T: Row>(t: Table<T>, rows: Seq<T>, p: spec_fn(T) -> bool) -> bool {
+    forall|j: int| 0 <= j < rows.len() ==> t.dom().contains((#[trigger] rows[j]).rid()) && t[rows[j].rid()] == rows[j] && p(rows[j])
+}
+pub open spec fn sel_distinct<T: Row>(rows: Seq<T>) -> bool {
+    forall|i: int, j: int| 0 <= i < j < rows.len() ==> (#[trigger] rows[i]).rid() != (#[trigger] rows[j]).rid()
+}
+pub open spec fn sel_complete<T: Row>(t: Table<T>, rows: Seq<T>, p: spec_fn(T) -> bool) -> bool {
+    forall|k: Seq<char>| t.dom().contains(k) && p(#[trigger] t[k]) ==> exists|j: int| 0 <= j < rows.len() && (#[trigger] rows[j]).rid() == k
+}
+pub open spec fn sel_count<T: Row>(t: Table<T>, p: spec_fn(T) -> bool) -> nat { t.dom().filter(|k: Seq<char>| p(t[k])).len() }
+
+// ASSUMED result of `query` (stated from C10: "exactly the records satisfying its AND/OR filter ... paged by offset/limit"):
+// rows are distinct records of the table that satisfy the filter, at most `limit`, and all of them when they fit the limit
+#[verifier::opaque]
 pub open spec fn query_result_ok<T: Row>(t: Table<T>, q: Query, rows: Seq<T>) -> bool {
-    &&& forall|i: int| 0 <= i < rows.len() ==> t.dom().contains((#[trigger] rows[i]).rid()) && t[rows[i].rid()] == rows[i] && query_holds(q, rows[i])
-    &&& forall|i: int, j: int| 0 <= i < j < rows.len() ==> (#[trigger] rows[i]).rid() != (#[trigger] rows[j]).rid()
+    &&& sel_sound(t, rows, |m: T| query_holds(q, m))
+    &&& sel_distinct(rows)
     &&& rows.len() <= q_limit(q)
-    &&& (matching(t, q).len() <= q_limit(q) ==>
-            forall|id: Seq<char>| matching(t, q).contains(id) ==> exists|i: int| 0 <= i < rows.len() && (#[trigger] rows[i]).rid() == id)
+    &&& (sel_count(t, |m: T| query_holds(q, m)) <= q_limit(q) ==> sel_complete(t, rows, |m: T| query_holds(q, m)))
+}
+// bridge from the filter to a named predicate p
+pub proof fn lemma_query_rows<T: Row>(t: Table<T>, q: Query, rows: Seq<T>, p: spec_fn(T) -> bool)
+    requires query_result_ok(t, q, rows), forall|m: T| #[trigger] query_holds(q, m) <==> p(m),
+    ensures sel_sound(t, rows, p), sel_distinct(rows), rows.len() <= q_limit(q),
+            sel_count(t, p) <= q_limit(q) ==> sel_complete(t, rows, p),
+{
+    reveal(query_result_ok);
+    let qh = |m: T| query_holds(q, m);
+    assert forall|j: int| 0 <= j < rows.len() implies t.dom().contains((#[trigger] rows[j]).rid()) && t[rows[j].rid()] == rows[j] && p(rows[j]) by {
+        assert(qh(rows[j]));
+    }
+    assert(t.dom().filter(|k: Seq<char>| p(t[k])) =~= t.dom().filter(|k: Seq<char>| qh(t[k]))) by {
+        assert forall|k: Seq<char>| #![auto] t.dom().contains(k) implies (p(t[k]) <==> qh(t[k])) by { assert(query_holds(q, t[k]) <==> p(t[k])); }
+    }
+    if sel_count(t, p) <= q_limit(q) {
+        assert forall|k: Seq<char>| t.dom().contains(k) && p(#[trigger] t[k]) implies exists|j: int| 0 <= j < rows.len() && (#[trigger] rows[j]).rid() == k by {
+            assert(qh(t[k]));
+        }
+    }
 }
 
 // ---- errors, clock
